@@ -8,6 +8,7 @@ mod sql;
 mod col;
 mod compact;
 mod corrupt;
+mod crash;
 
 fn le_u32(b: &[u8]) -> u32 { let mut a = [0u8; 4]; a[..b.len().min(4)].copy_from_slice(&b[..b.len().min(4)]); u32::from_le_bytes(a) }
 fn le_i32(b: &[u8]) -> i32 { le_u32(b) as i32 }
@@ -243,6 +244,7 @@ fn search(unit: &str, depth: usize) -> Value {
             }
         }
         "column" => return col::column(depth),
+        "sqlcrash" => return crash::crash(depth),
         "sqlcorrupt" => return corrupt::corrupt(depth),
         "sqlcompact" => return compact::compact(depth),
         "sqlddl" => return sql::ddl(depth),
